@@ -558,7 +558,7 @@ class RefSig:
 SAFE_ALPHABET = st.characters(
     blacklist_categories=("Cc", "Cs"), blacklist_characters="/", max_codepoint=0x2FF
 )
-KEYS = st.sampled_from(["a", "b", "c", "ab", "k1", "é", "x y", "0", "1", "key", "A", "type", "value"])
+KEYS = st.sampled_from(["a", "b", "c", "ab", "k1", "é", "x y", "x_y", "x:y", "0", "1", "key", "A", "type", "value"])
 INTS = st.one_of(st.sampled_from([0, 1, 2, 3, -1, 7, 10]), st.sampled_from([0, 1, 2, 3, -1, 7, 10]), st.integers(-(2**40), 2**40))
 FLOATS = st.one_of(
     st.sampled_from([1.5, 0.0, -0.0, 2.0, 0.5, 1e300, -1.5, 3.0]),
